@@ -107,6 +107,10 @@ static void complex_case(const Pattern &p) {
     });
 }
 
+// complex 2x1 block vectors: inner product conjugate-linear in the second argument
+static void complex_block_case(int n) { hx::run_case("complex_block_inner_product/n"+std::to_string(n), [&]() { typedef amgcl::static_matrix<CX,2,1> CV; be::numa_vector<CV> X(n,false), Y(n,false); scalar rr=0, ri=0;
+    for (int i=0;i<n;++i) { CV x, y; for (int q=0;q<2;++q) { scalar xr=var("xr"+std::to_string(2*i+q),0.5+i+q), xi=var("xi"+std::to_string(2*i+q),-0.25*(i+1)+q), yr=var("yr"+std::to_string(2*i+q),1.5-i+0.5*q), yi=var("yi"+std::to_string(2*i+q),0.75+0.25*i-q); x(q)=CX(xr,xi); y(q)=CX(yr,yi); rr+=xr*yr+xi*yi; ri+=xi*yr-xr*yi; } X[i]=x; Y[i]=y; }
+    CX ip=be::inner_product(X,Y); hx::prove_eq("inner product of complex block vectors = sum x_k conj(y_k)  (real part)", ip.real(), rr); hx::prove_eq("inner product of complex block vectors = sum x_k conj(y_k)  (imaginary part: conjugate-linear in the SECOND argument)", ip.imag(), ri); }); }
 // block_crs backend (sizes not divisible by the block size) and the hybrid backend
 static void blockcrs_case(const Pattern &p, int bs) {
     hx::run_case("block_crs/b"+std::to_string(bs)+"/"+p.name, [&]() {
@@ -143,6 +147,7 @@ int main(int argc, char **argv) {
     if (!T) for (int k=0;k<24;++k) scalar_case(hx::mask_pattern(3,3,rng.next()%512,false));
     for (int k=0;k<(T?40:8);++k) { int n=2+rng.below(5), m=2+rng.below(5); scalar_case(hx::random_pattern(n,m,rng,1+rng.below(3),false)); }
     for (int n=0;n<=(T?6:4);++n) vector_case(n);
+    for (int n=1;n<=(T?4:2);++n) complex_block_case(n);
     for (auto sh : std::vector<std::pair<int,int>>{{1,1},{2,2},{2,3},{3,2}}) { int bits=sh.first*sh.second; for (uint64_t mask=0; mask<(1ull<<bits); ++mask) if (T || bits<=4 || rng.below(4)==0) block_case(hx::mask_pattern(sh.first,sh.second,mask,false)); }
     for (auto sh : std::vector<std::pair<int,int>>{{1,1},{2,2},{2,3},{3,3}}) { int bits=sh.first*sh.second; for (uint64_t mask=0; mask<(1ull<<bits); ++mask) if (T || bits<=4 || rng.below(bits>6?24:4)==0) complex_case(hx::mask_pattern(sh.first,sh.second,mask,false)); }
     for (int k=0;k<(T?30:8);++k) { int n=1+rng.below(6), m=1+rng.below(6), bs=2+rng.below(2); blockcrs_case(hx::random_pattern(n,m,rng,1+rng.below(3),false),bs); }
